@@ -10,9 +10,9 @@ Import ListNotations.
 
 (* an(entity_matching(T, dom)(keywords)).evaluate() returns exactly the elements of dom of type T that satisfy the
    pattern -- as a set of identities: two distinct elements are two answers whatever their attribute values.
-   F11 (decidable, Eql/MatchFrag.v): keywords well typed against the class model and distinct, nested types comparable
-   with the declared attribute type, every nested match on a collection emits a condition.  Empty value lists under
-   match_any / match_all and match_any as the first keyword of a nested match are inside F11. *)
+   F11 (decidable, Eql/MatchFrag.v): keywords well typed against the class model and distinct, every nested match on a
+   collection emits a condition.  Empty value lists under match_any / match_all, match_any as the first keyword of a
+   nested match and nested types unrelated to the declared attribute type are inside F11. *)
 Theorem C11_match : forall C objcls M T l dom,
   sub_trans C -> typed C objcls M -> F11 C objcls T l = true ->
   forall o, In o (run C M T l dom) <-> In o (spec_run (sub C) M T l dom).
@@ -38,9 +38,6 @@ Theorem C11_fragment_flag : forall c : mcase, in_F c = true ->
 Proof. exact fragment_flag. Qed.
 
 (* ---- outside F11 the statement is false of the faithful model (and of the implementation: known findings) ---- *)
-(* C11-d: a nested type unrelated to the declared attribute type is not checked *)
-Theorem C11_refuted_unrelated_type : in_F w_kf_unrelated = false /\ differs w_kf_unrelated = true.
-Proof. exact refuted_unrelated_type. Qed.
 (* C11-e: a nested match on a collection that emits no condition does not require a member *)
 Theorem C11_refuted_empty_nested : in_F w_kf_emptynested = false /\ differs w_kf_emptynested = true.
 Proof. exact refuted_empty_nested. Qed.
@@ -60,6 +57,11 @@ Theorem C11_fixed_exists_first :
   in_F w_fixed_existsfirst = true /\ model_out w_fixed_existsfirst = SL [SZ 6] /\ spec_out w_fixed_existsfirst = SL [SZ 6].
 Proof. exact fixed_exists_first. Qed.
 
+(* C11-d (a8e94bb): a nested type unrelated to the declared attribute type is checked *)
+Theorem C11_fixed_unrelated_type :
+  in_F w_fixed_unrelated = true /\ model_out w_fixed_unrelated = SL [] /\ spec_out w_fixed_unrelated = SL [].
+Proof. exact fixed_unrelated_type. Qed.
+
 (* non-vacuity: a depth-3 pattern inside F11 (type narrowing through a collection, match_any after a binding
    condition, a second keyword at the root) whose answer is one of three racks *)
 Example C11_nonvacuous : in_F w_ok = true /\ model_out w_ok = SL [SZ 6] /\ spec_out w_ok = SL [SZ 6].
@@ -69,8 +71,8 @@ Print Assumptions C11_match.
 Print Assumptions C11_match_sat.
 Print Assumptions C11_and_chain.
 Print Assumptions C11_fragment_flag.
-Print Assumptions C11_refuted_unrelated_type.
 Print Assumptions C11_refuted_empty_nested.
 Print Assumptions C11_fixed_any_dedup.
 Print Assumptions C11_fixed_empty_list.
 Print Assumptions C11_fixed_exists_first.
+Print Assumptions C11_fixed_unrelated_type.
